@@ -46,6 +46,8 @@ type scenario struct {
 	// as DialContext has returned (the "ctx, cancel := WithTimeout(..); defer cancel()" idiom of a dial
 	// helper): a context that ends after a successful dial must not touch the connection.
 	CancelCtx bool `json:"cancel_ctx,omitempty"`
+	// ReverseEnv: run with AGWPE_REVERSE_TO_FROM=1 (only the 'Y' queries of accepted connections may change).
+	ReverseEnv bool `json:"reverse_env,omitempty"`
 
 	MaxFrame int  `json:"maxframe"`
 	TTLMax   int  `json:"ttl"`
